@@ -100,7 +100,7 @@ Record ERel (p : epend) (st : wstate) (m : m14) : Prop := {
   e_bad : m14_bad m = false;
   e_nthr : match p with ENone => b_nthr (m14_b m) = nthr st | ESp _ _ => S (b_nthr (m14_b m)) = nthr st end;
   e_sp : forall t q, p = ESp t q -> tpipe (thr st (b_nthr (m14_b m))) = q /\
-         (tcur (thr st t) = Some CSpawn \/ tcur (thr st t) = Some (CPNew q)) /\ tcont (thr st t) = [];
+         ((tcur (thr st t) = Some CSpawn /\ q < 0) \/ (tcur (thr st t) = Some (CPNew q) /\ 0 <= q)) /\ tcont (thr st t) = [];
   e_owner : forall u q, get_tid u (m14_owner m) = Some q <-> ((u < b_nthr (m14_b m))%nat /\ tpipe (thr st u) = q /\ 0 <= q);
   e_wuniq : forall u u', wkr st u -> wkr st u' -> tpipe (thr st u) = tpipe (thr st u') -> u = u';
   e_wex : forall u, wkr st u -> pexists (pps st (tpipe (thr st u))) = true;
@@ -1325,7 +1325,7 @@ Section ESpawn.
   Hypothesis Hncu : tcur (thr st' (nthr st)) = None.
   Hypothesis Hq : 0 <= q <-> pp = true.
   Hypothesis Ht : (t < nthr st)%nat.
-  Hypothesis Htc : tcur (thr st t) = Some CSpawn \/ tcur (thr st t) = Some (CPNew q).
+  Hypothesis Htc : (tcur (thr st t) = Some CSpawn /\ q < 0) \/ (tcur (thr st t) = Some (CPNew q) /\ 0 <= q).
   Hypothesis Hc : tcont (thr st t) = [].
   Hypothesis Hdl : dl st' = dl st.
   Hypothesis Hold : forall x h, slab_get (sl st) x = Some h -> slab_get (sl st') x = Some h.
@@ -1635,7 +1635,7 @@ Proof.
       |cbn -[Nat.eqb]; unfold updN, th; rewrite Nat.eqb_refl; reflexivity
       |cbn -[Nat.eqb]; unfold updN, th; rewrite Nat.eqb_refl; reflexivity
       |split; [intro L; exfalso; lia|intro L; discriminate L]
-      |exact Ht|left; exact Hcu1|exact Hc1|reflexivity|intros ? ? G; exact G|intros ? ? G; left; exact G|intros; reflexivity|intro L; discriminate L].
+      |exact Ht|left; split; [exact Hcu1|lia]|exact Hc1|reflexivity|intros ? ? G; exact G|intros ? ? G; left; exact G|intros; reflexivity|intro L; discriminate L].
   - pose proof (Inst ltac:(intros; discriminate) ltac:(discriminate)) as R1.
     destruct (negb (is_main t)); inversion H; subst; clear H; [exact R1|]. eid s1 t R1 (r14_same_refl m1) Hc1 Hcu1 [IJoin].
   - pose proof (Inst ltac:(intros; discriminate) ltac:(discriminate)) as R1.
@@ -1676,7 +1676,7 @@ Proof.
     + cbn -[Nat.eqb]. unfold updN, th. rewrite En, Nat.eqb_refl. reflexivity.
     + split; [reflexivity|intros _; exact Hok].
     + exact Ht1.
-    + right. exact Hcu1.
+    + right. split; [exact Hcu1|exact Hok].
     + exact Hc1.
     + cbn. exact Ed.
     + intros x0 h0 G. cbn. apply Hold. exact G.
@@ -1762,4 +1762,148 @@ Proof.
       * unfold s1. cbn -[Nat.eqb]. unfold updN, th. rewrite ?Nat.eqb_refl. cbn -[Nat.eqb]. unfold updN, th. rewrite ?Nat.eqb_refl. reflexivity.
       * intros _ x0. unfold s1. cbn -[Nat.eqb]. unfold updN, th. rewrite ?Nat.eqb_refl. cbn -[Nat.eqb]. unfold updN, th. rewrite ?Nat.eqb_refl. cbn. intro Y. discriminate Y.
       * intros _. split; [split; [exact Ht|exact L]|]. split; [reflexivity|]. intros _. exists (wbit (pw (pps s0 p))). exact Hpush.
+Qed.
+
+(** ** the end of a step *)
+Lemma e_steq : forall p st st' m,
+  ERel p st m -> nthr st' = nthr st -> sl st' = sl st -> dl st' = dl st -> pps st' = pps st ->
+  (forall u, tcont (thr st' u) = tcont (thr st u) /\ tfinal (thr st' u) = tfinal (thr st u) /\
+             tcur (thr st' u) = tcur (thr st u) /\ tpipe (thr st' u) = tpipe (thr st u)) ->
+  ERel p st' m.
+Proof.
+  intros p st st' m R Hn Esl Edl Epp Hu.
+  assert (Co : forall u, tcont (thr st' u) = tcont (thr st u)) by (intro u; apply Hu).
+  assert (Fi : forall u, tfinal (thr st' u) = tfinal (thr st u)) by (intro u; apply Hu).
+  assert (Cu : forall u, tcur (thr st' u) = tcur (thr st u)) by (intro u; apply Hu).
+  assert (Tp : forall u, tpipe (thr st' u) = tpipe (thr st u)) by (intro u; apply Hu).
+  assert (Tps : forall u, tpushes (thr st' u) = tpushes (thr st u)) by (intro u; unfold tpushes; rewrite Co, Fi; reflexivity).
+  assert (Mc : mcont st' = mcont st) by (unfold mcont; apply Co).
+  assert (Pl : pipeline st' = pipeline st) by (unfold pipeline; rewrite Edl, Co; reflexivity).
+  assert (Wk : forall u, wkr st' u <-> wkr st u) by (intro u; unfold wkr; rewrite Hn, Tp; tauto).
+  assert (Pg : forall q, prog14 st' m q <-> prog14 st m q) by (intro q; unfold prog14; rewrite Pl, Esl, Mc; tauto).
+  constructor.
+  - apply (e_bad _ _ _ R).
+  - rewrite Hn. apply (e_nthr _ _ _ R).
+  - intros t q E. rewrite Tp, Cu, Co. apply (e_sp _ _ _ R t q E).
+  - intros u q. rewrite Tp. apply (e_owner _ _ _ R).
+  - intros u u'. rewrite !Wk, !Tp. apply (e_wuniq _ _ _ R).
+  - intros u. rewrite Wk, Tp, Epp. apply (e_wex _ _ _ R).
+  - intros q. rewrite Epp. intro H. destruct (e_exw _ _ _ R q H) as [u [A B]]. exists u. rewrite Wk, Tp. auto.
+  - rewrite Epp, Esl. apply (e_noex _ _ _ R).
+  - rewrite Epp, Mc. apply (e_ins _ _ _ R).
+  - rewrite Esl. apply (e_uniq _ _ _ R).
+  - intros u Hw. cbn zeta. rewrite Tp, Mc, Epp, Co. apply Wk in Hw. apply (e_ls _ _ _ R u Hw).
+  - intros u x Hw. rewrite Cu, Tp. apply Wk in Hw. apply (e_lscur _ _ _ R u x Hw).
+  - rewrite Mc, Epp. apply (e_lsdone _ _ _ R).
+  - intros q H. rewrite Esl, Mc, Epp. destruct (e_term _ _ _ R q H) as [A [B C]]. split; [exact A|]. split; [intros u x; rewrite Tps; apply B|exact C].
+  - intros m0 q. rewrite Mc, Esl. intro H. destruct (e_hdel _ _ _ R m0 q H) as [A [B C]]. split; [exact A|]. split; [exact B|intros u x; rewrite Tps; apply C].
+  - intros q. rewrite Mc, Esl, Epp. intro H. destruct (e_hterm _ _ _ R q H) as [A [B C]]. split; [exact A|]. split; [intros u x; rewrite Tps; apply B|exact C].
+  - rewrite Mc. apply (e_hpos _ _ _ R).
+  - intros u j. rewrite Co. apply (e_hmain _ _ _ R).
+  - intros u Hw. cbn zeta. rewrite Tp, Epp, Mc, Co, Fi. apply Wk in Hw. apply (e_panic _ _ _ R u Hw).
+  - intros u q m0 a b. rewrite Co, Fi, Wk, Tp. apply (e_porder _ _ _ R).
+  - rewrite Mc. apply (e_ufterm _ _ _ R).
+  - intros u Hw. rewrite Tp, Tps. apply Wk in Hw. destruct (e_wprog _ _ _ R u Hw) as [A|A]; [left; exact A|right; apply Pg; exact A].
+  - intros q H. apply Pg. apply (e_exited _ _ _ R q H).
+Qed.
+
+(** threads that spawn complete within the step in which they begin *)
+Definition nsp (c : cmd) : Prop := match c with CSpawn | CPNew _ => False | _ => True end.
+
+(** the command of [t] returns [v]: the monitor sees [ERet v]; [tcur] is cleared *)
+Lemma e_ret : forall p st st2 m t c v,
+  ERel p st m -> XInv st -> (t < nthr st)%nat ->
+  tcur (thr st t) = Some c -> tcont (thr st t) = [] -> get_tid t (b_cur (m14_b m)) = Some c ->
+  ((p = ENone /\ nsp c /\ v = tret (thr st t)) \/ p = pendE t c (Some v)) ->
+  nthr st2 = nthr st -> sl st2 = sl st -> dl st2 = dl st -> pps st2 = pps st ->
+  (forall u, u <> t -> thr st2 u = thr st u) ->
+  tcont (thr st2 t) = [] -> tfinal (thr st2 t) = tfinal (thr st t) -> tpipe (thr st2 t) = tpipe (thr st t) -> tcur (thr st2 t) = None ->
+  ERel ENone st2 (m14r_step m (t, ERet v)).
+Proof.
+  intros p st st2 m t c v R X Ht Hcu Hc Hg Hp Hn Esl Edl Epp Ho Hc2 Hf2 Htp2 Hcu2.
+  set (m' := m14r_step m (t, ERet v)).
+  assert (Co : forall u, tcont (thr st2 u) = tcont (thr st u)) by (intro u; destruct (Nat.eq_dec u t) as [->|E]; [rewrite Hc, Hc2; reflexivity|rewrite Ho; auto]).
+  assert (Fi : forall u, tfinal (thr st2 u) = tfinal (thr st u)) by (intro u; destruct (Nat.eq_dec u t) as [->|E]; [exact Hf2|rewrite Ho; auto]).
+  assert (Tp : forall u, tpipe (thr st2 u) = tpipe (thr st u)) by (intro u; destruct (Nat.eq_dec u t) as [->|E]; [exact Htp2|rewrite Ho; auto]).
+  assert (Tps : forall u, tpushes (thr st2 u) = tpushes (thr st u)) by (intro u; unfold tpushes; rewrite Co, Fi; reflexivity).
+  assert (Mc : mcont st2 = mcont st) by (unfold mcont; apply Co).
+  assert (Pl : pipeline st2 = pipeline st) by (unfold pipeline; rewrite Edl, Co; reflexivity).
+  assert (Wk : forall u, wkr st2 u <-> wkr st u) by (intro u; unfold wkr; rewrite Hn, Tp; tauto).
+  (* the monitor *)
+  assert (Mf : m14_fwd m' = m14_fwd m /\ m14_term m' = m14_term m /\ m14_panic m' = m14_panic m /\ m14_exited m' = m14_exited m /\
+               m14_lsend m' = m14_lsend m /\ m14_bad m' = m14_bad m).
+  { unfold m', m14r_step, m14_step. cbn. rewrite Hg. destruct c; try (repeat split; reflexivity); destruct v; try (repeat split; reflexivity);
+      destruct (get_tid t (m14_owner m)); repeat split; reflexivity. }
+  destruct Mf as [M4 [M5 [M6 [M7 [M2 M8]]]]].
+  assert (Pg : forall q, prog14 st m q -> prog14 st2 m' q).
+  { intro q. unfold prog14. rewrite Pl, Esl, Mc, M5. tauto. }
+  assert (Mo : (exists q, c = CPNew q /\ v = RUnit /\ m14_owner m' = (b_nthr (m14_b m), q) :: m14_owner m) \/
+               ((forall q, ~ (c = CPNew q /\ v = RUnit)) /\ m14_owner m' = m14_owner m)).
+  { unfold m', m14r_step, m14_step. cbn. rewrite Hg. destruct c as [w|w|c0 x0|c0|w|n| | | | | |c0|c0|p0|p0 x0|p0| |x| | ]; try (right; split; [intros q0 [E0 _]; discriminate E0|]; destruct v; try reflexivity; destruct (get_tid t (m14_owner m)); reflexivity).
+    destruct v; try (right; split; [intros q0 [_ E0]; discriminate E0|reflexivity]). left. exists p0. auto. }
+  assert (Mn : b_nthr (m14_b m') = if (match c, v with CSpawn, RUnit | CPNew _, RUnit => true | _, _ => false end) then S (b_nthr (m14_b m)) else b_nthr (m14_b m)).
+  { unfold m'. rewrite m14r_b_step. cbn. rewrite Hg. destruct c; try reflexivity; destruct v; reflexivity. }
+  assert (Md : (exists x b q, c = CLSend x /\ v = RBool b /\ get_tid t (m14_owner m) = Some q /\ m14_lsdone m' = m14_lsdone m ++ [(q, x)]) \/ m14_lsdone m' = m14_lsdone m).
+  { unfold m', m14r_step, m14_step. cbn. rewrite Hg. destruct c as [w|w|c0 x0|c0|w|n| | | | | |c0|c0|p0|p0 x0|p0| |x| | ]; try (right; destruct v; try reflexivity; destruct (get_tid t (m14_owner m)); reflexivity).
+    destruct v; try (right; reflexivity). destruct (get_tid t (m14_owner m)) as [q|] eqn:Eo; [left; exists x, b, q; auto|right; reflexivity]. }
+  (* what the pending part says *)
+  assert (Pd : (p = ENone /\ (match c, v with CSpawn, RUnit | CPNew _, RUnit => false | _, _ => true end) = true) \/
+               (exists q, p = ESp t q /\ v = RUnit /\ ((c = CSpawn /\ q < 0) \/ (c = CPNew q /\ 0 <= q)))).
+  { destruct Hp as [[-> [Nc _]] | ->].
+    - left. split; [reflexivity|]. destruct c; try reflexivity; destruct Nc.
+    - unfold pendE. destruct c as [w|w|c0 x0|c0|w|n| | | | | |c0|c0|p0|p0 x0|p0| |x| | ]; try (left; split; reflexivity).
+      + destruct v; try (left; split; reflexivity). right. exists (-1). split; [reflexivity|]. split; [reflexivity|left; split; [reflexivity|lia]].
+      + destruct v; try (left; split; reflexivity). right. exists p0. split; [reflexivity|]. split; [reflexivity|].
+        pose proof (e_sp _ _ _ R t p0) as Z0. unfold pendE in Z0. destruct (Z0 eq_refl) as [_ [[[E0 _]|[_ E0]] _]]; [rewrite Hcu in E0; discriminate E0|right; auto]. }
+  assert (Nb : b_nthr (m14_b m') = nthr st /\ (forall u q, get_tid u (m14_owner m') = Some q <-> ((u < nthr st)%nat /\ tpipe (thr st u) = q /\ 0 <= q))).
+  { destruct Pd as [[-> Eb]|[q [-> [-> Hcq]]]].
+    - pose proof (e_nthr _ _ _ R) as N0. cbn in N0. rewrite Mn.
+      assert (Ec : (match c, v with CSpawn, RUnit | CPNew _, RUnit => true | _, _ => false end) = false) by (destruct c; try reflexivity; destruct v; try reflexivity; discriminate Eb).
+      rewrite Ec. split; [exact N0|]. intros u q. destruct Mo as [[q0 [-> [-> _]]]|[_ ->]]; [discriminate Eb|]. rewrite <- N0. apply (e_owner _ _ _ R).
+    - pose proof (e_nthr _ _ _ R) as N0. cbn in N0. destruct (e_sp _ _ _ R t q eq_refl) as [Sq _]. rewrite Mn.
+      destruct Hcq as [[-> Lq]|[-> Lq]].
+      + split; [exact N0|]. destruct Mo as [[q0 [E0 _]]|[_ ->]]; [discriminate E0|]. intros u q'. rewrite (e_owner _ _ _ R u q'), <- N0.
+        split; [intros [A B]; split; [lia|exact B]|intros [A [B C]]; split; [|auto]].
+        destruct (Nat.eq_dec u (b_nthr (m14_b m))) as [->|Nu]; [rewrite Sq in B; lia|lia].
+      + split; [exact N0|]. destruct Mo as [[q0 [E0 [_ ->]]]|[Z0 _]]; [|exfalso; apply (Z0 q); auto]. inversion E0; subst q0.
+        intros u q'. cbn. destruct (Nat.eqb_spec (b_nthr (m14_b m)) u) as [<-|Nu].
+        * split; [intro E1; inversion E1; subst q'; split; [lia|split; [exact Sq|exact Lq]]|intros [_ [B _]]; rewrite Sq in B; rewrite B; reflexivity].
+        * rewrite (e_owner _ _ _ R u q'), <- N0. split; [intros [A B]; split; [lia|exact B]|intros [A B]; split; [lia|exact B]]. }
+  destruct Nb as [Nb Ow].
+  constructor.
+  - rewrite M8. apply (e_bad _ _ _ R).
+  - rewrite Nb, Hn. reflexivity.
+  - intros t0 q0 E0. discriminate E0.
+  - intros u q. rewrite Nb, Tp. apply Ow.
+  - intros u u'. rewrite !Wk, !Tp. apply (e_wuniq _ _ _ R).
+  - intros u. rewrite Wk, Tp, Epp. apply (e_wex _ _ _ R).
+  - intros q. rewrite Epp. intro H. destruct (e_exw _ _ _ R q H) as [u [A B]]. exists u. rewrite Wk, Tp. auto.
+  - intros q. rewrite Epp, Esl, M2, M4, M5, M6, M7. intro Hq. destruct (e_noex _ _ _ R q Hq) as [A1 [A2 [A3 [A4 [A5 [A6 [A7 [A8 A9]]]]]]]].
+    repeat split; auto. intros x Hin. destruct Md as [[x0 [b [q0 [-> [-> [Eo Ed]]]]]]|Ed]; rewrite Ed in Hin; [|exact (A9 x Hin)].
+    apply in_app_or in Hin. destruct Hin as [Hin|[Hin|[]]]; [exact (A9 x Hin)|]. inversion Hin; subst q0 x0.
+    assert (Wt : wkr st t) by (pose proof (owner_of st m t) as Z0; destruct p; [rewrite (Z0 R Ht) in Eo; destruct (Z.leb_spec 0 (tpipe (thr st t))); [split; auto|discriminate Eo]|];
+      apply (e_owner _ _ _ R) in Eo; split; [exact Ht|destruct Eo as [_ [Z1 Z2]]; rewrite Z1; exact Z2]).
+    assert (Eq : tpipe (thr st t) = q) by (apply (e_owner _ _ _ R) in Eo; apply Eo).
+    rewrite <- Eq, (e_wex _ _ _ R t Wt) in Hq. discriminate Hq.
+  - rewrite Epp, Mc. apply (e_ins _ _ _ R).
+  - rewrite Esl. apply (e_uniq _ _ _ R).
+  - intros u Hw. cbn zeta. rewrite Tp, Mc, Epp, Co, M2, M4. apply Wk in Hw. apply (e_ls _ _ _ R u Hw).
+  - intros u x Hw Hcx. rewrite Tp, M2. apply Wk in Hw. destruct (Nat.eq_dec u t) as [->|E]; [rewrite Hcu2 in Hcx; discriminate Hcx|].
+    rewrite (Ho u E) in Hcx. apply (e_lscur _ _ _ R u x Hw Hcx).
+  - intros q x Hin. rewrite Mc, Epp, M4. destruct Md as [[x0 [b [q0 [-> [-> [Eo Ed]]]]]]|Ed]; rewrite Ed in Hin; [|apply (e_lsdone _ _ _ R q x Hin)].
+    apply in_app_or in Hin. destruct Hin as [Hin|[Hin|[]]]; [apply (e_lsdone _ _ _ R q x Hin)|]. inversion Hin; subst q0 x0.
+    apply (e_owner _ _ _ R) in Eo. destruct Eo as [Lt [Eq Lq]].
+    assert (Wt : wkr st t) by (split; [exact Ht|rewrite Eq; exact Lq]).
+    pose proof (e_lscur _ _ _ R t x Wt Hcu) as Lx. pose proof (e_ls _ _ _ R t Wt) as L. cbn zeta in L. rewrite Eq in *. rewrite L, Hc in Lx.
+    cbn [lpend flat_map] in Lx. rewrite !app_nil_r in Lx. rewrite app_assoc in Lx. rewrite app_assoc. exact Lx.
+  - intros q. rewrite M5. intro H. rewrite Esl, Mc, Epp. destruct (e_term _ _ _ R q H) as [A [B C]]. split; [exact A|]. split; [intros u x; rewrite Tps; apply B|exact C].
+  - intros m0 q. rewrite Mc, Esl. intro H. destruct (e_hdel _ _ _ R m0 q H) as [A [B C]]. split; [exact A|]. split; [exact B|intros u x; rewrite Tps; apply C].
+  - intros q. rewrite Mc, Esl, Epp. intro H. destruct (e_hterm _ _ _ R q H) as [A [B C]]. split; [exact A|]. split; [intros u x; rewrite Tps; apply B|exact C].
+  - rewrite Mc. apply (e_hpos _ _ _ R).
+  - intros u j. rewrite Co. apply (e_hmain _ _ _ R).
+  - intros u Hw. cbn zeta. rewrite Tp, Epp, Mc, Co, Fi, M5, M6. apply Wk in Hw. apply (e_panic _ _ _ R u Hw).
+  - intros u q m0 a b. rewrite Co, Fi, Wk, Tp. apply (e_porder _ _ _ R).
+  - rewrite Mc, M6. apply (e_ufterm _ _ _ R).
+  - intros u Hw. rewrite Tp, Tps. apply Wk in Hw. destruct (e_wprog _ _ _ R u Hw) as [A|A]; [left; exact A|right; apply Pg; exact A].
+  - intros q. rewrite M7. intro H. apply Pg. apply (e_exited _ _ _ R q H).
 Qed.
